@@ -73,9 +73,14 @@ fn display_of(e: &Error) -> Value {
             }
         }
         let again = format!("{}", e);
-        (first, again, failed)
+        // the same value under format specs a caller may write (aligned log columns, sign / zero flags, alternate form)
+        let specs = json!({
+            "<60": format!("{:<60}", e), ">60": format!("{:>60}", e), "^7": format!("{:^7}", e), "*<50": format!("{:*<50}", e),
+            "+": format!("{:+}", e), "06": format!("{:06}", e), "#": format!("{:#}", e), "to_string": e.to_string(),
+        });
+        (first, again, failed, specs)
     })) {
-        Ok((s, again, failed)) => json!({"ok": true, "s": s, "again": again, "failed_writes": failed}),
+        Ok((s, again, failed, specs)) => json!({"ok": true, "s": s, "again": again, "failed_writes": failed, "specs": specs}),
         Err(_) => json!({"ok": false}),
     }
 }
